@@ -449,9 +449,10 @@ def random_nd(ctx, sub):
     ax = int(rng.integers(0, nd))
     if periodic and rng.random() < 0.5:
         # make sure the periodic axis is long enough to be interesting
-        spec = gen.MeshSpec(spec.pmin, spec.cell, np.where(np.arange(nd) == ax,
-                            np.maximum(spec.n, 3), spec.n), dims, spec.units, spec.flip,
-                            spec.int_corners)
+        n_new = np.where(np.arange(nd) == ax, np.maximum(spec.n, 3), spec.n)
+        spec = gen.MeshSpec(spec.pmin, spec.cell, n_new, dims, spec.units, spec.flip,
+                            bool(spec.int_corners and all(float(c * k).is_integer()
+                                                          for c, k in zip(spec.cell, n_new))))
     n = tuple(int(k) for k in spec.n)
     dname = names[ax]
     bc = ""
